@@ -655,3 +655,4 @@ MANIFEST = {
     "ref": "DESIGN.md §4 C09",
 }
 MANIFEST["text"] += " NumPy scalar and 0-d magnitudes format like the Python number; an empty spec formats exactly as the registry default_format given explicitly, for 10 default formats including '#'-only ones."
+MANIFEST["text"] += ' Units without a dimension (radian, count, percent, steradian) in 11 specs, and every canonical unit alone and over a second in 2 specs, under the three sort functions.'
